@@ -26,6 +26,8 @@ type disPay struct {
 	consts   []string // constant pool indices used (provenance)
 	problems []string
 	walk     []string
+	forced   *int64 // the opcode the byte at the instruction offset is taken to be
+	unknown  bool   // the path lists the instruction as unknown
 }
 
 func (p *disPay) Clone() Payload {
@@ -63,6 +65,7 @@ type disModel struct {
 
 func (c *Ctx) findDisasm() (*ast.FuncDecl, *ast.SwitchStmt) {
 	vmfd, _, _ := c.findDispatch()
+	var tableForm *ast.FuncDecl
 	for _, f := range c.Bcl.Syntax {
 		for _, d := range f.Decls {
 			fd, ok := d.(*ast.FuncDecl)
@@ -82,9 +85,30 @@ func (c *Ctx) findDisasm() (*ast.FuncDecl, *ast.SwitchStmt) {
 					return fd, sw
 				}
 			}
+			// table form: the opcode fetched from Prog.code at the int parameter indexes a package-level table
+			// (of operand kinds, of per-instruction functions)
+			fetches, indexes := false, false
+			ast.Inspect(fd.Body, func(n ast.Node) bool {
+				ix, ok := n.(*ast.IndexExpr)
+				if !ok {
+					return true
+				}
+				if c.fieldPath(ix.X) == "<Prog>.code" {
+					fetches = true
+				}
+				if id, ok := stripParens(ix.X).(*ast.Ident); ok && isNamed(c.typeOf(ix.Index), bclPath, "opcode") {
+					if v, ok := c.objOf(id).(*types.Var); ok && v.Parent() == c.Bcl.Types.Scope() {
+						indexes = true
+					}
+				}
+				return true
+			})
+			if fetches && indexes && tableForm == nil {
+				tableForm = fd
+			}
 		}
 	}
-	return nil, nil
+	return tableForm, nil
 }
 
 func isInt(t types.Type) bool {
@@ -98,9 +122,9 @@ func (c *Ctx) disModel() (*disModel, error) {
 	if m, ok := disModelCache[c]; ok {
 		return m, nil
 	}
-	fd, sw := c.findDisasm()
+	fd, _ := c.findDisasm()
 	if fd == nil {
-		return nil, fmt.Errorf("disassembler (a function returning int with a switch on an opcode value) not found")
+		return nil, fmt.Errorf("disassembler (a function returning int that fetches an opcode from Prog.code and dispatches on it by a switch or a table) not found")
 	}
 	m := &disModel{Func: fd, Arms: map[string]*disArm{}}
 	if obj, ok := c.Bcl.TypesInfo.Defs[fd.Name].(*types.Func); ok {
@@ -144,6 +168,11 @@ func (c *Ctx) disModel() (*disModel, error) {
 		switch c.fieldPath(e.X) {
 		case "<Prog>.code":
 			codeRead(in, st, "B", e.Index, e.Pos())
+			// the byte at the instruction offset is the opcode being listed
+			if p := pay(st); len(p.reads) > 0 && p.reads[len(p.reads)-1].At.equal(linSym("offset")) && p.forced != nil {
+				v := constV(constant.MakeInt64(*p.forced))
+				return v, true
+			}
 			return tagV("operand", "byte"), true
 		case "<Prog>.constants":
 			pay(st).consts = append(pay(st).consts, idx.String())
@@ -153,6 +182,12 @@ func (c *Ctx) disModel() (*disModel, error) {
 	}
 	h.Call = func(in *Interp, st *State, call *ast.CallExpr, callee types.Object, args []Value) ([]valState, bool) {
 		name := qname(callee)
+		// the listing of an opcode the disassembler does not know says so
+		for _, a := range call.Args {
+			if sv, ok := c.strConst(a); ok && strings.Contains(sv, "unknown") {
+				pay(st).unknown = true
+			}
+		}
 		if (name == "uvarintFromBytes" || name == "u16FromBytes") && len(call.Args) == 1 {
 			se, ok := stripParens(call.Args[0]).(*ast.SliceExpr)
 			if !ok || !isCode(se.X) || se.Low == nil {
@@ -169,22 +204,11 @@ func (c *Ctx) disModel() (*disModel, error) {
 	}
 	in := newInterp(c, h)
 	ops := constsOfType(c.Bcl, "opcode")
-	var tagObj types.Object
-	if id, ok := stripParens(sw.Tag).(*ast.Ident); ok {
-		tagObj = c.objOf(id)
-	}
-	// bind the int parameter (the instruction offset)
 	info := c.Bcl.TypesInfo
-	handled := map[int64]bool{}
-	for _, cl := range sw.Body.List {
-		for _, e := range cl.(*ast.CaseClause).List {
-			if v, ok := c.intConst(e); ok {
-				handled[v] = true
-			}
-		}
-	}
 	for _, op := range ops {
-		st := &State{Env: map[types.Object]Value{}, P: &disPay{}}
+		val := op.Val
+		st := &State{Env: map[types.Object]Value{}, P: &disPay{forced: &val}}
+		// bind the int parameter (the instruction offset)
 		for _, f := range fd.Type.Params.List {
 			for _, n := range f.Names {
 				if obj := info.Defs[n]; obj != nil && isInt(obj.Type()) {
@@ -192,41 +216,27 @@ func (c *Ctx) disModel() (*disModel, error) {
 				}
 			}
 		}
-		var pre []ast.Stmt
-		for _, s := range fd.Body.List {
-			if s == ast.Stmt(sw) {
-				break
-			}
-			pre = append(pre, s)
-		}
-		sts := in.execBlock([]*State{st}, pre)
-		arm := &disArm{Op: op.Name, Fallback: !handled[op.Val]}
+		arm := &disArm{Op: op.Name}
 		var keys = map[string]bool{}
 		first := true
-		for _, st := range sts {
-			if st.Term != tNone {
+		for _, r := range in.execBlock([]*State{st}, fd.Body.List) {
+			p := pay(r)
+			if keys[p.key()] {
 				continue
 			}
-			tag := constV(constant.MakeInt64(op.Val))
-			if tagObj != nil {
-				st.Env[tagObj] = tag
+			keys[p.key()] = true
+			if p.unknown {
+				arm.Fallback = true
 			}
-			for _, r := range in.switchArms(st, sw, &tag) {
-				p := pay(r)
-				if keys[p.key()] {
-					continue
-				}
-				keys[p.key()] = true
-				shape, why := disShape(p, r)
-				if why != "" {
-					arm.Why = why
-				} else if first {
-					arm.Shape, arm.OK = shape, true
-					arm.Consts = p.consts
-					first = false
-				} else if arm.Shape != shape {
-					arm.OK, arm.Why = false, fmt.Sprintf("paths disagree on the operand shape: %q vs %q", arm.Shape, shape)
-				}
+			shape, why := disShape(p, r)
+			if why != "" {
+				arm.Why = why
+			} else if first {
+				arm.Shape, arm.OK = shape, true
+				arm.Consts = p.consts
+				first = false
+			} else if arm.Shape != shape {
+				arm.OK, arm.Why = false, fmt.Sprintf("paths disagree on the operand shape: %q vs %q", arm.Shape, shape)
 			}
 		}
 		if arm.Why != "" {
